@@ -5,7 +5,7 @@ from props import cfgstate_common as C
 
 ID = "C05"
 COQ_DIRS = ["Common", "CfgState", "C05"]
-COQ_TARGETS = ["C05/Props.vo", "CfgState/Run.vo"]
+COQ_TARGETS = ["C05/Props.vo", "C05/Framing.vo", "CfgState/Run.vo"]
 PROPS_MODULES = ["C05.Props"]
 RUN_MODULE = "CfgState.Run"
 RUN_FN = "run_case"
@@ -20,13 +20,51 @@ RULE = ("cases: command histories (every mutating verb, valid and invalid argume
         ">= 3 different kinds and >= 6 objects; distinct by op text.")
 ASSUMPTIONS = C.COMMON_ASSUMPTIONS + [
     "equality of configurations is modulo empty buckets (backends / tcp_fronts / udp_fronts / certificates): an empty bucket emits no request and is equivalent to an absent one; exact equality is reported as an observation",
-    "the JSON / protobuf byte encodings are serde / prost (trusted, exercised on every case); the model predicts that the three replay paths give the verdict of the in-memory path and that the JSON round trip is the identity",
+    "the JSON / protobuf payload codecs are serde / prost (oracles, exercised on every case); the state-file FRAMING is modelled and proved (C05/Framing.v) under: a serde_json payload contains no NUL byte (control characters are escaped) and decodes to itself when followed by a newline; the protobuf bootstrap blob has no framing of its own beyond prost's encoding of `repeated WorkerRequest`; the decimal rendering of the SAVE-<n> counter is injective",
 ]
 TRUSTED = C.COMMON_TRUSTED
 
 
 def translate():
-    return C.translate()[0]
+    fails = C.translate()[0]
+    # T-const: the SAVE-<n> counters of both save paths are usize (enumerate() / `0usize`), the framing is "\n\0"
+    import re
+    src = open(C.STATE_RS).read()
+    prod = C.fn_body(src, "produce_initial_state")
+    wr = C.fn_body(src, "write_requests_to_file")
+    if not re.search(r"generate_requests\(\)\s*\.into_iter\(\)\s*\.enumerate\(\)", prod) or 'format!("SAVE-{counter}")' not in prod:
+        fails.append("produce_initial_state no longer numbers the requests SAVE-<usize index of enumerate()>")
+    if not re.search(r"let\s+mut\s+counter\s*=\s*0usize", wr) or 'format!("SAVE-{counter}")' not in wr or not re.search(r"counter\s*\+=\s*1", wr):
+        fails.append("write_requests_to_file no longer numbers the requests with a usize counter")
+    if 'b"\\n\\0"' not in wr:
+        fails.append('write_requests_to_file no longer terminates every record with b"\\n\\0"')
+    par = open(C.os.path.join(vlib.REPO, "command/src/parser.rs")).read()
+    flat = re.sub(r"\s+", "", par)
+    want = 'many0(nom::combinator::complete(terminated(map_res(is_not("\\0"),parse_one_request),char(' + "'\\0'" + '),)))'
+    if want not in flat:
+        fails.append("parser.rs: parse_several_requests is no longer many0(complete(terminated(map_res(is_not(NUL), from_slice), char(NUL))))")
+    return fails
+
+
+def framing_case(rng, cid):
+    """the real nom parser on framed numbers: good frames, empty records, garbage, cuts"""
+    ops = []
+    for _ in range(rng.choice([1, 2, 3])):
+        data = b""
+        for _ in range(rng.randrange(6)):
+            r = rng.random()
+            if r < 0.65:
+                data += str(rng.choice([0, 7, 10, 42, 1000, 65535, 123456])).encode() + rng.choice([b"\n", b"\n", b"", b" \n", b"\r\n"]) + b"\0"
+            elif r < 0.75:
+                data += b"\0"
+            elif r < 0.85:
+                data += rng.choice([b"abc", b"01", b"-3", b"1 2", b"\n", b"1.5", b"{}"]) + b"\0"
+            else:
+                data += rng.choice([b"12", b" 9\n", b"x"])
+        if data and rng.random() < 0.5:
+            data = data[:rng.randrange(len(data) + 1)]
+        ops.append(["parse_bytes", data])
+    return Case(cid, ops)
 
 
 def history_case(rng, cid, n):
@@ -38,7 +76,7 @@ def history_case(rng, cid, n):
             ops.append(["replay"])
         elif r < 0.10:
             ops.append(["dump"])
-    ops += [["dump"], ["replay"]]
+    ops += [["dump"], ["replay"], ["framing"]]
     return Case(cid, ops)
 
 
@@ -76,7 +114,9 @@ def gen_cases(rng, tier):
     n = {"quick": 1600, "thorough": 30000, "search": 8000}.get(tier, 1600)
     out = []
     for i in range(n):
-        if i % 3 == 0:
+        if i % 8 == 7:
+            out.append(framing_case(rng, "f%d" % i))
+        elif i % 3 == 0:
             out.append(build_case(rng, "b%d" % i))
         else:
             out.append(history_case(rng, "h%d" % i, rng.choice([8, 15, 30, 50])))
@@ -113,7 +153,10 @@ LEVEL_TEXT = ("Machine-checked proof (Coq 8.16 + std++) over the executable Conf
               "through all four paths (requests, JSON state file with the master's load loop, protobuf blob, serde_json of "
               "the state) and compared with the extracted model's verdict; the property's oracle is evaluated on the "
               "implementation.")
-LEVEL_NOTE = ("The request-level theorem (replay_generate) is proved at full strength for every reachable state and all "
+LEVEL_NOTE = ("State-file framing modelled and proved (round trip for every list, behaviour on a cut last record and on an "
+              "undecodable record), tied to the real nom parser on every run (framed numbers incl. garbage / cuts against the "
+              "extracted model; the real state file cut at every point against the expected complete-record count); SAVE ids "
+              "distinct for every length (usize counters, checked against the source). The request-level theorem (replay_generate) is proved at full strength for every reachable state and all "
               "eleven maps, modulo empty buckets, with the reachable-state invariant proved inductive; order-independence "
               "is proved for the map-backed sections (listeners, clusters, http/https frontends) and holds by the same "
               "lemmas for any order of the buckets. The byte encodings (serde_json, prost, the \\n\\0 framing and the "
